@@ -28,7 +28,7 @@ func init() {
 	register(&PropertyDef{
 		ID:          "C03",
 		Title:       "Only correctly signed metadata events reach group state and subscribers",
-		Explanation: "Decides structural necessary conditions from the type-checked SSA of /repo: (D1) the event-type table has an entry for every EventType value except Undefined and each entry's checker is of the kind the reference table (DESIGN.md B.1) requires, the kind being derived from the checker's body, and every prototype given to the device checker implements GetDevicePk; (D2) each checker's success returns are dominated by the accepting side of a Verify on the right key, data and signature (a Verify inside a module helper whose success returns all pass it counts, with the helper's parameters mapped to the call's arguments); (D3) every root-package function that hands out a decoded (*GroupMetadata, payload, error) from the group secretbox.Open has all its success returns pass - directly or through callees whose own success returns all pass it and whose error it accepts - secretbox.Open accepted with the group's secret, the event-type table hit, and the table entry's checker returned nil; the checked metadata and payload are the ones handed out, the payload is unmarshalled from the checked metadata's Payload bytes, and the checker gets the group being opened; a decode-only helper (no checker call) must be unexported and every caller must apply the checker to the values it received from it; (D4) every use of an opened event (index handlers, emitters, listings) is dominated by the nil-error side of the open call, and GroupMetadataEvent values are only built by the opener chain. It does not decide Ed25519 unforgeability nor that a dropped event leaves the state unchanged beyond 'handler not invoked'.",
+		Explanation: "Decides structural necessary conditions from the type-checked SSA of /repo: (D1) the event-type table has an entry for every EventType value except Undefined and each entry's checker is of the kind the reference table (DESIGN.md B.1) requires, the kind being derived from the checker's body, and every prototype given to the device checker implements GetDevicePk; (D2) each checker's success returns are dominated by the accepting side of a Verify on the right key, data and signature (a Verify inside a module helper whose success returns all pass it counts, with the helper's parameters mapped to the call's arguments; a checker may also return the result of a helper that is handed some of its three arguments together with function values - check(resolveSigner, g, metadata, message) - the helper is then classified for that call, at most two levels deep, with each func-typed parameter bound to the function passed, so that the kind of key is derived per checker, and inside such a helper every Verify verdict must reject on failure); (D3) every root-package function that hands out a decoded (*GroupMetadata, payload, error) from the group secretbox.Open has all its success returns pass - directly or through callees whose own success returns all pass it and whose error it accepts - secretbox.Open accepted with the group's secret, the event-type table hit, and the table entry's checker returned nil; the checked metadata and payload are the ones handed out, the payload is unmarshalled from the checked metadata's Payload bytes, and the checker gets the group being opened; a decode-only helper (no checker call) must be unexported and every caller must apply the checker to the values it received from it; (D4) every use of an opened event (index handlers, emitters, listings) is dominated by the nil-error side of the open call, and GroupMetadataEvent values are only built by the opener chain. It does not decide Ed25519 unforgeability nor that a dropped event leaves the state unchanged beyond 'handler not invoked'.",
 		Trusted:     []string{"golang.org/x/tools go/packages+go/ssa (v0.29.0)", "libp2p crypto.PubKey.Verify and nacl/secretbox semantics", "go/types"},
 		Assumptions: []string{"dependencies behave as documented; only module code is analysed"},
 		Floors:      map[string]int{"D1": 21, "D2": 3, "D3": 4, "D4": 3},
@@ -41,6 +41,7 @@ type verifyShape struct {
 	Site           ssa.CallInstruction
 	Key, Data, Sig RootSet
 	Verdict        ssa.Value     // the value whose acceptance means "verified" (bool ok, or a helper's error)
+	Verdicts       []ssa.Value   // every verdict of the site (direct Verify: ok and err; nil = discarded)
 	Via            *ssa.Function // helper that performs the Verify, nil when direct
 }
 
@@ -84,13 +85,84 @@ func hasPrefixIn(list []string, s string) bool {
 	return false
 }
 
-func verifyShapes(w *World, fn *ssa.Function) []verifyShape {
+// c03Spec says how a function takes part in a signature check: Roles[i] is the checker
+// argument that parameter i carries (0 group, 1 metadata, 2 message; -1 none of them) and
+// Binds[i] the function passed for the func-typed parameter i at the call site the function
+// is analysed for. A table checker itself has Roles {0,1,2} and no bindings.
+type c03Spec struct {
+	Roles []int
+	Binds map[int]*ssa.Function
+}
+
+var c03TopSpec = c03Spec{Roles: []int{0, 1, 2}}
+
+func (s c03Spec) key(fn *ssa.Function) string {
+	k := fn.String() + fmt.Sprint(s.Roles)
+	idx := make([]int, 0, len(s.Binds))
+	for i := range s.Binds {
+		idx = append(idx, i)
+	}
+	sort.Ints(idx)
+	for _, i := range idx {
+		k += fmt.Sprintf("|%d=%s", i, s.Binds[i].String())
+	}
+	return k
+}
+
+func (s c03Spec) bindFunc(fn *ssa.Function) func(*ssa.Parameter) *ssa.Function {
+	if len(s.Binds) == 0 {
+		return nil
+	}
+	return func(p *ssa.Parameter) *ssa.Function {
+		for i, q := range fn.Params {
+			if q == p {
+				return s.Binds[i]
+			}
+		}
+		return nil
+	}
+}
+
+// c03RoleRoots renames the parameter roots of rs by the checker argument they carry: p0 group,
+// p1 metadata, p2 message (so that names and positions do not matter); a parameter that carries
+// none of them is x<index>.
+func c03RoleRoots(rs RootSet, fn *ssa.Function, spec c03Spec) []string {
+	var out []string
+	for k := range rs {
+		if !strings.HasPrefix(k, "param:") {
+			continue
+		}
+		name := strings.TrimPrefix(k, "param:")
+		base, rest := name, ""
+		if i := strings.Index(name, "."); i >= 0 {
+			base, rest = name[:i], name[i:]
+		}
+		for i, p := range fn.Params {
+			if p.Name() != base {
+				continue
+			}
+			if i < len(spec.Roles) && spec.Roles[i] >= 0 {
+				out = append(out, fmt.Sprintf("p%d%s", spec.Roles[i], rest))
+			} else {
+				out = append(out, fmt.Sprintf("x%d%s", i, rest))
+			}
+		}
+	}
+	sort.Strings(out)
+	return out
+}
+
+func verifyShapes(w *World, fn *ssa.Function, spec c03Spec) []verifyShape {
 	var out []verifyShape
-	cfg := provCfg{W: w, InlineResults: true}
+	cfg := provCfg{W: w, InlineResults: true, BindFunc: spec.bindFunc(fn)}
 	for _, s := range verifySitesIn(fn, 2) {
 		vs := verifyShape{Site: s.Call, Key: rootsOf(cfg, s.Key), Data: rootsOf(cfg, s.Data), Sig: rootsOf(cfg, s.Sig), Via: s.Via}
 		if len(s.Verdicts) > 0 && (s.Via != nil || boolVerdict(s.Call) != nil) {
 			vs.Verdict = s.Verdicts[0]
+		}
+		vs.Verdicts = s.Verdicts
+		if s.Via == nil {
+			vs.Verdicts = []ssa.Value{boolVerdict(s.Call), errVerdict(s.Call)}
 		}
 		out = append(out, vs)
 	}
@@ -99,17 +171,73 @@ func verifyShapes(w *World, fn *ssa.Function) []verifyShape {
 
 // checkerKinds classifies a sig checker function (signature: group, metadata, message) by
 // the verifications that dominate its success returns. Kinds: group, device, member.
-func checkerKinds(w *World, fn *ssa.Function, memo map[*ssa.Function]map[string]bool, why *[]string) map[string]bool {
-	if k, ok := memo[fn]; ok {
+func checkerKinds(w *World, fn *ssa.Function, memo map[string]map[string]bool, why *[]string) map[string]bool {
+	if fn == nil || fn.Blocks == nil || len(fn.Params) != 3 {
+		return map[string]bool{}
+	}
+	return c03KindsOf(w, fn, c03TopSpec, 0, memo, why)
+}
+
+// c03DelegateSpec: the call hands the checker arguments of fn (as described by spec) on to the
+// callee: every argument is one of fn's role-carrying parameters, a function value (bound to
+// the callee's func-typed parameter: `check(resolver, g, metadata, message)`), or something the
+// callee's verification must then not depend on (role -1).
+func c03DelegateSpec(fn *ssa.Function, spec c03Spec, call *ssa.Call, callee *ssa.Function) (c03Spec, bool) {
+	args := call.Common().Args
+	if len(args) != len(callee.Params) {
+		return c03Spec{}, false
+	}
+	out := c03Spec{Roles: make([]int, len(args)), Binds: map[int]*ssa.Function{}}
+	nRoles := 0
+	for i, a := range args {
+		out.Roles[i] = -1
+		a = stripConv(a)
+		for j, p := range fn.Params {
+			if ssa.Value(p) != a {
+				continue
+			}
+			if j < len(spec.Roles) && spec.Roles[j] >= 0 {
+				out.Roles[i] = spec.Roles[j]
+				nRoles++
+			}
+			if f := spec.Binds[j]; f != nil {
+				out.Binds[i] = f
+			}
+		}
+		if _, isSig := callee.Params[i].Type().Underlying().(*types.Signature); isSig {
+			switch fv := a.(type) {
+			case *ssa.Function:
+				out.Binds[i] = fv
+			case *ssa.MakeClosure:
+				// a closure literal that captures nothing is a plain function
+				if f, ok := fv.Fn.(*ssa.Function); ok && len(fv.Bindings) == 0 {
+					out.Binds[i] = f
+				}
+			}
+		}
+	}
+	return out, nRoles > 0
+}
+
+// c03KindsOf: the kinds of signature check that fn, used as described by spec, enforces on every
+// success return. depth > 0: fn is a helper a checker delegates to; its Verify verdicts are then
+// required to reject on failure here (for the table checkers themselves rule D2 reports that).
+func c03KindsOf(w *World, fn *ssa.Function, spec c03Spec, depth int, memo map[string]map[string]bool, why *[]string) map[string]bool {
+	mk := spec.key(fn) + fmt.Sprint(depth > 0)
+	if k, ok := memo[mk]; ok {
 		return k
 	}
-	memo[fn] = map[string]bool{}
+	memo[mk] = map[string]bool{}
 	kinds := map[string]bool{}
-	if fn == nil || fn.Blocks == nil || len(fn.Params) != 3 {
+	if fn == nil || fn.Blocks == nil {
 		return kinds
 	}
-	for _, vs := range verifyShapes(w, fn) {
-		key, data, sig := paramRoots(vs.Key, fn), paramRoots(vs.Data, fn), paramRoots(vs.Sig, fn)
+	for _, vs := range verifyShapes(w, fn, spec) {
+		key, data, sig := c03RoleRoots(vs.Key, fn, spec), c03RoleRoots(vs.Data, fn, spec), c03RoleRoots(vs.Sig, fn, spec)
+		if hasPrefixIn(key, "x") || hasPrefixIn(data, "x") || hasPrefixIn(sig, "x") {
+			*why = append(*why, fmt.Sprintf("%s: Verify with key<-%v data<-%v sig<-%v depends on a parameter that is none of the checker's arguments", fnName(fn), key, data, sig))
+			continue
+		}
 		kind := ""
 		switch {
 		case has(data, "p1.Payload") && has(sig, "p1.Sig") && has(key, "p0.PublicKey") && !hasPrefixIn(key, "p2") && !hasPrefixIn(key, "p1"):
@@ -137,41 +265,55 @@ func checkerKinds(w *World, fn *ssa.Function, memo map[*ssa.Function]map[string]
 			*why = append(*why, fmt.Sprintf("%s: a success return bypasses the %s Verify", fnName(fn), kind))
 			continue
 		}
-		kinds[kind] = true
-	}
-	// delegation: success value is another checker's result on the same three arguments
-	for _, b := range fn.Blocks {
-		for _, in := range b.Instrs {
-			call, ok := in.(*ssa.Call)
-			if !ok {
-				continue
-			}
-			callee := staticCallee(call.Common())
-			if callee == nil || callee == fn || !inModule(callee) || len(callee.Params) != 3 || len(call.Common().Args) != 3 {
-				continue
-			}
-			same := true
-			for i, a := range call.Common().Args {
-				if a != fn.Params[i] {
-					same = false
+		if depth > 0 {
+			rejects := true
+			for _, v := range vs.Verdicts {
+				if r := rejectOnFailure(fn, v); !r.OK {
+					rejects = false
+					*why = append(*why, fmt.Sprintf("%s: %s Verify verdict: %s", fnName(fn), kind, r.Why))
 				}
 			}
-			if !same {
+			if !rejects {
 				continue
 			}
-			v := errVerdict(call)
-			if v == nil {
-				continue
-			}
-			if by := bypassReturns(fn, edgesOfVerdict(v).Accept, []ssa.Value{v}); len(by) > 0 {
-				continue
-			}
-			for k := range checkerKinds(w, callee, memo, why) {
-				kinds[k] = true
+		}
+		kinds[kind] = true
+	}
+	// delegation: the success value is the result of another function that is handed (some of)
+	// the checker's arguments, possibly together with function values that tell it what to do
+	// (check(resolveSigner, g, metadata, message)): the callee is classified for that call.
+	if depth < 2 {
+		for _, b := range fn.Blocks {
+			for _, in := range b.Instrs {
+				call, ok := in.(*ssa.Call)
+				if !ok {
+					continue
+				}
+				callee := staticCallee(call.Common())
+				if callee == nil || callee == fn || !inModule(callee) || callee.Blocks == nil {
+					continue
+				}
+				sub, ok := c03DelegateSpec(fn, spec, call, callee)
+				if !ok {
+					continue
+				}
+				v := errVerdict(call)
+				if v == nil {
+					continue
+				}
+				if by := bypassReturns(fn, edgesOfVerdict(v).Accept, []ssa.Value{v}); len(by) > 0 {
+					continue
+				}
+				if r := rejectOnFailure(fn, v); !r.OK {
+					continue
+				}
+				for k := range c03KindsOf(w, callee, sub, depth+1, memo, why) {
+					kinds[k] = true
+				}
 			}
 		}
 	}
-	memo[fn] = kinds
+	memo[mk] = kinds
 	return kinds
 }
 
@@ -371,7 +513,7 @@ func runC03(c *Ctx) {
 	for _, e := range entries {
 		byVal[e.KeyVal] = e
 	}
-	memo := map[*ssa.Function]map[string]bool{}
+	memo := map[string]map[string]bool{}
 	var whys []string
 	getDevicePk := func(t types.Type) bool {
 		ms := types.NewMethodSet(t)
